@@ -5,8 +5,8 @@ package main
 
 import (
 	"fmt"
-	"math/big"
 	"go/types"
+	"math/big"
 	"strconv"
 	"strings"
 
